@@ -14,7 +14,10 @@
 // body and with a JSON error body that ECHOES the request (and the stored secret) in fields the node has no business forwarding;
 // 200 with truncated JSON, with wrong types, with an empty body, with `null`; 204; the request served normally but answered
 // verbosely (the secret echoed in extra fields of the success answer); connection reset; connection cut inside the answer; no
-// answer within the client's time-out.
+// answer within the client's time-out; and 19 header-level deviations of the store's otherwise CORRECT answer (the request is
+// served, the normal body - for a lookup the secret itself - is sent): Content-Type absent / text/plain / octet-stream / text/html /
+// xml / json with an unknown charset / upper case / "json" as a mere substring / problem+json, Content-Length too long / too short,
+// chunked, trailing JSON / garbage after the body, a leading BOM, status 201 / 202 / 203 / 206.
 //
 // Oracle (the existing one): no canary form of any private key the store holds or was asked to hold — and no parsable private
 // key PEM block at all — in the returned values (rendered with %v %+v %#v %s and as JSON; tokens decoded), in the returned
@@ -83,7 +86,115 @@ func faultAlphabet() []faultMode {
 	for _, s := range []string{"truncated-json", "wrong-types", "empty-200", "null-200", "no-content", "echo-success", "reset", "partial", "timeout"} {
 		out = append(out, faultMode{Name: s, Special: s})
 	}
+	// header-level deviations of an otherwise CORRECT answer: the store does the work and sends its normal body (which, for a
+	// lookup, legitimately carries the secret), but something about the envelope makes the client take its error path
+	for _, s := range headerDeviations() {
+		out = append(out, faultMode{Name: "ok/" + s, Special: "ok/" + s})
+	}
 	return out
+}
+
+func headerDeviations() []string {
+	return []string{"ct-absent", "ct-text-plain", "ct-octet-stream", "ct-text-html", "ct-xml", "ct-json-charset", "ct-JSON-uppercase", "ct-json-substring", "ct-problem-json",
+		"length-too-long", "length-too-short", "chunked", "trailing-json", "trailing-garbage", "leading-bom", "status-201", "status-202", "status-203", "status-206"}
+}
+
+// answerDeviating: the normal answer of the store (already produced into rec) sent with one envelope deviation.
+func answerDeviating(w nethttp.ResponseWriter, rec *httptest.ResponseRecorder, dev string, hijack func() net.Conn) {
+	body := rec.Body.Bytes()
+	code := rec.Code
+	ct := rec.Header().Get("Content-Type")
+	raw := func(status int, contentType string, declared int, b []byte) {
+		c := hijack()
+		if c == nil {
+			return
+		}
+		hdr := fmt.Sprintf("HTTP/1.1 %d %s\r\n", status, nethttp.StatusText(status))
+		if contentType != "" {
+			hdr += "Content-Type: " + contentType + "\r\n"
+		}
+		hdr += fmt.Sprintf("Content-Length: %d\r\nConnection: close\r\n\r\n", declared)
+		_, _ = c.Write(append([]byte(hdr), b...))
+		_ = c.Close()
+	}
+	switch dev {
+	case "ct-absent":
+		w.Header()["Content-Type"] = nil // suppresses the server's content sniffing as well
+	case "ct-text-plain":
+		ct = "text/plain; charset=utf-8"
+	case "ct-octet-stream":
+		ct = "application/octet-stream"
+	case "ct-text-html":
+		ct = "text/html"
+	case "ct-xml":
+		ct = "application/xml"
+	case "ct-json-charset":
+		ct = "application/json; charset=x-unknown"
+	case "ct-JSON-uppercase":
+		ct = "APPLICATION/JSON"
+	case "ct-json-substring":
+		ct = "text/x-json-lines"
+	case "ct-problem-json":
+		ct = "application/problem+json"
+	case "length-too-long":
+		raw(okCode(code), ct, len(body)+64, body)
+		return
+	case "length-too-short":
+		n := len(body) * 2 / 3
+		raw(okCode(code), ct, n, body)
+		return
+	case "trailing-json":
+		body = append(append([]byte{}, body...), []byte("\n{\"trailer\":true}\n")...)
+	case "trailing-garbage":
+		body = append(append([]byte{}, body...), []byte("\n-- served by proxy-7 --\n")...)
+	case "leading-bom":
+		body = append([]byte("\xef\xbb\xbf"), body...)
+	case "status-201":
+		code = 201
+	case "status-202":
+		code = 202
+	case "status-203":
+		code = 203
+	case "status-206":
+		code = 206
+	}
+	if dev != "ct-absent" && ct != "" {
+		w.Header().Set("Content-Type", ct)
+	}
+	if code == 204 && len(body) > 0 {
+		code = 200
+	}
+	if strings.HasPrefix(dev, "status-") && len(body) == 0 {
+		body = []byte("{}")
+		if ct == "" {
+			w.Header().Set("Content-Type", "application/json")
+		}
+	}
+	w.WriteHeader(code)
+	if dev == "chunked" {
+		fl, _ := w.(nethttp.Flusher)
+		for i := 0; i < len(body); i += 37 {
+			end := i + 37
+			if end > len(body) {
+				end = len(body)
+			}
+			_, _ = w.Write(body[i:end])
+			if fl != nil {
+				fl.Flush()
+			}
+		}
+		return
+	}
+	if code != 204 {
+		_, _ = w.Write(body)
+	}
+}
+
+func okCode(code int) int {
+	if code == 204 {
+		return 200
+	}
+	return code
 }
 
 // pairAlphabet: the representatives used for pairs of faults (thorough tier).
@@ -195,6 +306,12 @@ func (p *faultPlan) hook(f *fakeStore, w nethttp.ResponseWriter, r *nethttp.Requ
 		default:
 			w.WriteHeader(m.Status)
 		}
+		return true
+	}
+	if dev, ok := strings.CutPrefix(m.Special, "ok/"); ok {
+		rec := httptest.NewRecorder()
+		f.handle(rec, r, clean, body)
+		answerDeviating(w, rec, dev, hijack)
 		return true
 	}
 	switch m.Special {
